@@ -8,13 +8,15 @@
    removeSubscription (+ dissolver job), hub addSub / removeSub with
    generations, presence manager, join / leave publication.
 
-   The subscription has presence and join/leave enabled and is not positioned,
+   The subscription has presence and join/leave enabled and (but for a `positioned` client-side one) is not positioned,
    so every thread runs through calls of public interfaces that the harness
    implements (natural gates, DESIGN 4.0) plus two `verif` hooks; one action of
    this spec = the code between two such points:
 
      CS : idle -Reserve-> "cb" (OnSubscribe callback) -> ["bsub" (Broker.Subscribe,
-          first subscriber only)] -> "pres" (PresenceManager.AddPresence) ->
+          first subscriber only)] -> "pres" (PresenceManager.AddPresence) -> ["hist" (Broker.History: stream top of a
+          POSITIONED client-side subscription, variable positioned; a failing call answers a client error:
+          the subscribe command gets an ERROR REPLY after its presence was added)] ->
           "replied" (hook sub:replied: reply enqueued, not committed) ->
           "join" (Broker.PublishJoin) -> done
      SS : idle -Reserve+AddSub-> ["bsub"] -> "pres" -> "committed" (hook
@@ -67,7 +69,7 @@ CONSTANTS
   Faults,         \* subset of FaultCalls: the round trips that may fail
   MaxFaults       \* fault budget of one behaviour
 
-FaultCalls == {"PublishJoin", "PublishLeave", "AddPresence", "RemovePresence", "BrokerUnsubscribe"}
+FaultCalls == {"PublishJoin", "PublishLeave", "AddPresence", "RemovePresence", "BrokerUnsubscribe", "History"}
 AttrVals   == {"none", "fA", "fB"}
 AP_None    == {<<"none", "none">>}
 AP_Two     == {<<"fA", "none">>, <<"none", "fB">>}
@@ -79,6 +81,7 @@ None == [gen |-> 0, sub |-> FALSE, subCh |-> "nil", ss |-> FALSE]
 
 VARIABLES
   ops, async, nopush,
+  positioned,   \* the client-side subscription is positioned: subscribeCmd reads the stream top (Broker.History) after AddPresence
   attr,         \* [CS |-> routing attribute of the client-side subscribe, SS |-> of the server-side subscribe]
   faults,       \* number of failed round trips so far
   hist,         \* history tags for the witness predicates only (not in the VIEW, read by no invariant)
@@ -101,7 +104,7 @@ VARIABLES
   out,          \* frames written to the connection: "subreply", "subpush", "unsubreply", "unsubpush", "suberr", "disc"
   step
 
-vars == <<ops, async, nopush, attr, faults, hist, pc, loc, entry, ctr, closedGens, hubE, hubA, brokerSub, jobs, pres, status, closeReq, closing, settled,
+vars == <<ops, async, nopush, positioned, attr, faults, hist, pc, loc, entry, ctr, closedGens, hubE, hubA, brokerSub, jobs, pres, status, closeReq, closing, settled,
           established, jl, cbs, out, step>>
 
 NoLoc == [gen |-> 0, has |-> FALSE, tgen |-> 0, wait |-> FALSE, wasSub |-> FALSE, rgen |-> 0, snap |-> FALSE]
@@ -110,6 +113,7 @@ Init ==
   /\ ops \in OpSets /\ async \in BOOLEAN /\ nopush \in NoPush
   /\ \E ap \in AttrPairs : attr = [CS |-> IF "CS" \in ops THEN ap[1] ELSE "none", SS |-> IF "SS" \in ops THEN ap[2] ELSE "none"]
   /\ faults = 0 /\ hist = {} /\ hubA = "none"
+  /\ positioned \in (IF "History" \in Faults /\ MaxFaults > 0 /\ "CS" \in ops /\ ~nopush THEN BOOLEAN ELSE {FALSE})
   /\ pc = [t \in Threads |-> "idle"] /\ loc = [t \in Threads |-> NoLoc]
   /\ entry = None /\ ctr = 0 /\ closedGens = {} /\ hubE = 0 /\ brokerSub = FALSE /\ jobs = 0
   /\ pres = FALSE /\ status = "connected" /\ closeReq = FALSE /\ closing = FALSE /\ settled = FALSE /\ established = 0
@@ -158,7 +162,7 @@ CSReserve ==
           /\ ctr' = ctr + 1
           /\ loc' = [loc EXCEPT !["CS"].gen = ctr + 1]
           /\ Go("CS", "cb") /\ UNCHANGED out
-  /\ UNCHANGED <<ops, async, nopush, attr, faults, hist, closedGens, hubE, hubA, brokerSub, jobs, pres, status, closeReq, closing, settled, established, jl, cbs>>
+  /\ UNCHANGED <<ops, async, nopush, positioned, attr, faults, hist, closedGens, hubE, hubA, brokerSub, jobs, pres, status, closeReq, closing, settled, established, jl, cbs>>
   /\ Step("CS", "Reserve")
 
 \* the second "still reserved and not closed" check of subscribeCmd (by channel NAME, not generation)
@@ -176,7 +180,7 @@ CSCallback ==       \* cb(reply): first check, addSubscription
        ELSE /\ HubAdd("CS", g) /\ hist' = hist \cup OverTag("CS")
             /\ UNCHANGED <<jobs, entry, closedGens, closeReq, closing, settled, brokerSub, pres>>
             /\ IF hubE = 0 THEN Go("CS", "bsub") ELSE Go("CS", "pres")
-  /\ UNCHANGED <<ops, async, nopush, attr, faults, loc, ctr, status, established, jl, cbs, out, closing, settled>>
+  /\ UNCHANGED <<ops, async, nopush, positioned, attr, faults, loc, ctr, status, established, jl, cbs, out, closing, settled>>
   /\ Step("CS", "Callback")
 
 CSBrokerSubscribed ==
@@ -191,7 +195,7 @@ CSBrokerSubscribed ==
                  ELSE UNCHANGED <<entry, closedGens>>
             /\ HubRemove(g)
        ELSE Go("CS", "pres") /\ UNCHANGED <<entry, closedGens, hubE, hubA, jobs, closeReq, closing, settled>>
-  /\ UNCHANGED <<ops, async, nopush, attr, faults, hist, loc, ctr, pres, status, established, jl, cbs, out, closing, settled>>
+  /\ UNCHANGED <<ops, async, nopush, positioned, attr, faults, hist, loc, ctr, pres, status, established, jl, cbs, out, closing, settled>>
   /\ Step("CS", "BrokerSubscribed")
 
 CSPresenceReply ==  \* AddPresence lands, subscribe reply enqueued
@@ -204,10 +208,27 @@ CSPresenceReply ==  \* AddPresence lands, subscribe reply enqueued
                  /\ NoBsub
                  /\ pres' = FALSE /\ CSFail(loc["CS"].gen)
                  /\ UNCHANGED out
-            ELSE /\ pres' = TRUE /\ out' = Write("subreply")
-                 /\ Go("CS", "replied")
+            ELSE /\ pres' = TRUE
+                 \* a positioned subscription reads the stream top next (Broker.History), the reply follows that
+                 /\ IF positioned THEN Go("CS", "hist") /\ UNCHANGED out
+                                   ELSE Go("CS", "replied") /\ out' = Write("subreply")
                  /\ UNCHANGED <<entry, closedGens, hubE, hubA, jobs, closeReq>>
-  /\ UNCHANGED <<ops, async, nopush, attr, loc, ctr, brokerSub, status, closing, settled, established, jl, cbs>>
+  /\ UNCHANGED <<ops, async, nopush, positioned, attr, loc, ctr, brokerSub, status, closing, settled, established, jl, cbs>>
+
+CSHistory ==        \* positioned subscribe: Broker.History (stream top) returns, subscribe reply enqueued
+  /\ pc["CS"] = "hist"
+  /\ \E f \in MayFail("History") :
+       /\ Fault("History", "CS", f) /\ StepF("CS", "History", f)
+       /\ IF f
+            THEN \* a client error (non-internal *Error) from history / recovery: subscribeCmd returns ctx.err; the presence
+                 \* added before is removed by the deferred rollback, the caller drops reservation and hub entry
+                 \* generation-matched (needs the subLock) and answers the command with an ERROR REPLY: no disconnect
+                 /\ NoBsub
+                 /\ pres' = FALSE /\ ErrRollback(loc["CS"].gen) /\ Go("CS", "done")
+                 /\ out' = Write("suberr")
+            ELSE /\ out' = Write("subreply") /\ Go("CS", "replied")
+                 /\ UNCHANGED <<pres, entry, closedGens, hubE, hubA, jobs>>
+  /\ UNCHANGED <<ops, async, nopush, positioned, attr, loc, ctr, brokerSub, status, closeReq, closing, settled, established, jl, cbs>>
 
 \* commitSubscription for generation g; ss = server-side. Result in pc: committed -> pcOk, else pcFail
 Commit(t, g, ss, pcOk, pcFail, failSpawnsClose) ==
@@ -230,14 +251,14 @@ Commit(t, g, ss, pcOk, pcFail, failSpawnsClose) ==
 CSCommit ==
   /\ pc["CS"] = "replied" /\ NoBsub
   /\ Commit("CS", loc["CS"].gen, FALSE, "join", "done", TRUE)
-  /\ UNCHANGED <<ops, async, nopush, attr, faults, hist, loc, ctr, brokerSub, status, jl, cbs, out, closing, settled>>
+  /\ UNCHANGED <<ops, async, nopush, positioned, attr, faults, hist, loc, ctr, brokerSub, status, jl, cbs, out, closing, settled>>
   /\ Step("CS", "Commit")
 
 CSJoin ==
   /\ pc["CS"] = "join"
   /\ jl' = Append(jl, [k |-> "join", g |-> loc["CS"].gen]) /\ Go("CS", "done")
   /\ \E f \in MayFail("PublishJoin") : Fault("PublishJoin", "CS", f) /\ StepF("CS", "Join", f)   \* result ignored
-  /\ UNCHANGED <<ops, async, nopush, attr, loc, entry, ctr, closedGens, hubE, hubA, brokerSub, jobs, pres, status, closeReq, closing, settled, established, cbs, out>>
+  /\ UNCHANGED <<ops, async, nopush, positioned, attr, loc, entry, ctr, closedGens, hubE, hubA, brokerSub, jobs, pres, status, closeReq, closing, settled, established, cbs, out>>
 
 ---------------------------------------------------------------------------
 (* server-side subscribe *)
@@ -251,13 +272,13 @@ SSReserve ==
             /\ HubAdd("SS", ctr + 1)                             \* no "still reserved" check on this path
             /\ IF hubE = 0 THEN Go("SS", "bsub") ELSE Go("SS", "pres")
   /\ hist' = IF status = "closed" \/ Has THEN hist ELSE hist \cup OverTag("SS")
-  /\ UNCHANGED <<ops, async, nopush, attr, faults, closedGens, brokerSub, jobs, pres, status, closeReq, closing, settled, established, jl, cbs, out>>
+  /\ UNCHANGED <<ops, async, nopush, positioned, attr, faults, closedGens, brokerSub, jobs, pres, status, closeReq, closing, settled, established, jl, cbs, out>>
   /\ Step("SS", "Reserve")
 
 SSBrokerSubscribed ==
   /\ pc["SS"] = "bsub"
   /\ brokerSub' = TRUE /\ Go("SS", "pres")
-  /\ UNCHANGED <<ops, async, nopush, attr, faults, hist, loc, entry, ctr, closedGens, hubE, hubA, jobs, pres, status, closeReq, closing, settled, established, jl, cbs, out>>
+  /\ UNCHANGED <<ops, async, nopush, positioned, attr, faults, hist, loc, entry, ctr, closedGens, hubE, hubA, jobs, pres, status, closeReq, closing, settled, established, jl, cbs, out>>
   /\ Step("SS", "BrokerSubscribed")
 
 SSPresenceCommit ==
@@ -277,7 +298,7 @@ SSPresenceCommit ==
                       /\ closedGens' = closedGens \cup {g} /\ established' = established + 1
                       /\ Go("SS", "committed") /\ UNCHANGED <<hubE, hubA, jobs, closeReq, closing, settled>>
                  ELSE Commit("SS", g, TRUE, "committed", "done", FALSE)
-  /\ UNCHANGED <<ops, async, nopush, attr, loc, ctr, brokerSub, status, jl, cbs, out, closing, settled>>
+  /\ UNCHANGED <<ops, async, nopush, positioned, attr, loc, ctr, brokerSub, status, jl, cbs, out, closing, settled>>
 
 SSPush ==
   /\ pc["SS"] = "committed"
@@ -285,14 +306,14 @@ SSPush ==
   \* the join is published even when the push cannot be written (connection closed meanwhile): the subscription
   \* is committed and its leave will be published
   /\ Go("SS", "join")
-  /\ UNCHANGED <<ops, async, nopush, attr, faults, hist, loc, entry, ctr, closedGens, hubE, hubA, brokerSub, jobs, pres, status, closeReq, closing, settled, established, jl, cbs>>
+  /\ UNCHANGED <<ops, async, nopush, positioned, attr, faults, hist, loc, entry, ctr, closedGens, hubE, hubA, brokerSub, jobs, pres, status, closeReq, closing, settled, established, jl, cbs>>
   /\ Step("SS", "Push")
 
 SSJoin ==
   /\ pc["SS"] = "join"
   /\ jl' = Append(jl, [k |-> "join", g |-> loc["SS"].gen]) /\ Go("SS", "done")
   /\ \E f \in MayFail("PublishJoin") : Fault("PublishJoin", "SS", f) /\ StepF("SS", "Join", f)   \* result ignored
-  /\ UNCHANGED <<ops, async, nopush, attr, loc, entry, ctr, closedGens, hubE, hubA, brokerSub, jobs, pres, status, closeReq, closing, settled, established, cbs, out>>
+  /\ UNCHANGED <<ops, async, nopush, positioned, attr, loc, entry, ctr, closedGens, hubE, hubA, brokerSub, jobs, pres, status, closeReq, closing, settled, established, cbs, out>>
 
 ---------------------------------------------------------------------------
 (* unsubscribe: shared by CU (reply), SU (push) and CL (nothing written) *)
@@ -310,7 +331,7 @@ UStart(t) ==
   /\ IF status = "closed"
        THEN Go(t, "done") /\ UNCHANGED loc              \* Client.Unsubscribe / HandleCommand on a closed client: no-op
        ELSE UnsubSnapshot(t)
-  /\ UNCHANGED <<ops, async, nopush, attr, faults, hist, entry, ctr, closedGens, hubE, hubA, brokerSub, jobs, pres, status, closeReq, closing, settled, established, jl, cbs, out>>
+  /\ UNCHANGED <<ops, async, nopush, positioned, attr, faults, hist, entry, ctr, closedGens, hubE, hubA, brokerSub, jobs, pres, status, closeReq, closing, settled, established, jl, cbs, out>>
   /\ Step(t, "UnsubStart")
 
 PendingJoin(g) == (pc["CS"] = "join" /\ loc["CS"].gen = g) \/ (pc["SS"] \in {"committed", "join"} /\ loc["SS"].gen = g)
@@ -335,14 +356,14 @@ UProceed(t) ==           \* wait gate, then the generation-matched delete under 
                     ELSE \* a reservation: only the hub entry (if any) is removed, no presence/leave/callback
                          /\ NoBsub /\ HubRemove(entry.gen)
                          /\ out' = FinishFrame(t) /\ Go(t, AfterUnsub(t))
-  /\ UNCHANGED <<ops, async, nopush, attr, faults, hist, ctr, brokerSub, pres, status, closeReq, closing, settled, established, jl, cbs>>
+  /\ UNCHANGED <<ops, async, nopush, positioned, attr, faults, hist, ctr, brokerSub, pres, status, closeReq, closing, settled, established, jl, cbs>>
   /\ Step(t, "UnsubProceed")
 
 URemovePresence(t) ==
   /\ pc[t] = "rempres"
   /\ pres' = FALSE /\ Go(t, "leave")      \* a failing call: the removal landed, its reply was lost; the error is only logged
   /\ \E f \in MayFail("RemovePresence") : Fault("RemovePresence", t, f) /\ StepF(t, "RemovePresence", f)
-  /\ UNCHANGED <<ops, async, nopush, attr, loc, entry, ctr, closedGens, hubE, hubA, brokerSub, jobs, status, closeReq, closing, settled, established, jl, cbs, out>>
+  /\ UNCHANGED <<ops, async, nopush, positioned, attr, loc, entry, ctr, closedGens, hubE, hubA, brokerSub, jobs, status, closeReq, closing, settled, established, jl, cbs, out>>
 
 ULeave(t) ==
   /\ pc[t] = "leave" /\ NoBsub
@@ -350,13 +371,13 @@ ULeave(t) ==
   /\ HubRemove(loc[t].rgen)                 \* whatever PublishLeave returned (`_ =`): removeSubscription follows
   /\ Go(t, "ucb")
   /\ \E f \in MayFail("PublishLeave") : Fault("PublishLeave", t, f) /\ StepF(t, "Leave", f)
-  /\ UNCHANGED <<ops, async, nopush, attr, loc, entry, ctr, closedGens, brokerSub, pres, status, closeReq, closing, settled, established, cbs, out>>
+  /\ UNCHANGED <<ops, async, nopush, positioned, attr, loc, entry, ctr, closedGens, brokerSub, pres, status, closeReq, closing, settled, established, cbs, out>>
 
 UCallback(t) ==
   /\ pc[t] = "ucb"
   /\ cbs' = Append(cbs, "unsub")
   /\ out' = FinishFrame(t) /\ Go(t, AfterUnsub(t))
-  /\ UNCHANGED <<ops, async, nopush, attr, faults, hist, loc, entry, ctr, closedGens, hubE, hubA, brokerSub, jobs, pres, status, closeReq, closing, settled, established, jl>>
+  /\ UNCHANGED <<ops, async, nopush, positioned, attr, faults, hist, loc, entry, ctr, closedGens, hubE, hubA, brokerSub, jobs, pres, status, closeReq, closing, settled, established, jl>>
   /\ Step(t, "UnsubCallback")
 
 ---------------------------------------------------------------------------
@@ -368,7 +389,7 @@ CLStart ==
      ELSE /\ status' = "closed"
           /\ loc' = [loc EXCEPT !["CL"].snap = Has]            \* channels snapshot under c.mu
           /\ Go("CL", "tclose")
-  /\ UNCHANGED <<ops, async, nopush, attr, faults, hist, entry, ctr, closedGens, hubE, hubA, brokerSub, jobs, pres, closeReq, settled, established, jl, cbs, out>>
+  /\ UNCHANGED <<ops, async, nopush, positioned, attr, faults, hist, entry, ctr, closedGens, hubE, hubA, brokerSub, jobs, pres, closeReq, settled, established, jl, cbs, out>>
   /\ Step("CL", "CloseStart")
 
 CLTransportClosed ==
@@ -376,13 +397,13 @@ CLTransportClosed ==
   /\ pc["TK"] \notin {"tkalive", "tkpres"}          \* close() takes presenceMu, held by a running tick
   /\ out' = Append(out, "disc")
   /\ IF loc["CL"].snap THEN UnsubSnapshot("CL") ELSE Go("CL", "kdisc") /\ UNCHANGED loc
-  /\ UNCHANGED <<ops, async, nopush, attr, faults, hist, entry, ctr, closedGens, hubE, hubA, brokerSub, jobs, pres, status, closeReq, closing, settled, established, jl, cbs>>
+  /\ UNCHANGED <<ops, async, nopush, positioned, attr, faults, hist, entry, ctr, closedGens, hubE, hubA, brokerSub, jobs, pres, status, closeReq, closing, settled, established, jl, cbs>>
   /\ Step("CL", "TransportClosed")
 
 CLDisconnectCb ==
   /\ pc["CL"] = "kdisc"
   /\ cbs' = Append(cbs, "disc") /\ Go("CL", "done")
-  /\ UNCHANGED <<ops, async, nopush, attr, faults, hist, loc, entry, ctr, closedGens, hubE, hubA, brokerSub, jobs, pres, status, closeReq, closing, settled, established, jl, out>>
+  /\ UNCHANGED <<ops, async, nopush, positioned, attr, faults, hist, loc, entry, ctr, closedGens, hubE, hubA, brokerSub, jobs, pres, status, closeReq, closing, settled, established, jl, out>>
   /\ Step("CL", "DisconnectCallback")
 
 ---------------------------------------------------------------------------
@@ -395,13 +416,13 @@ TKStart ==
        THEN Go("TK", "done")                         \* closed, or no subscribed channel with duties: nothing to do
        ELSE Go("TK", "tkalive")                      \* snapshot taken, parked in the alive callback
   /\ loc' = [loc EXCEPT !["TK"].tgen = entry.gen]
-  /\ UNCHANGED <<ops, async, nopush, attr, faults, hist, entry, ctr, closedGens, hubE, hubA, brokerSub, jobs, pres, status, closeReq, closing, settled, established, jl, cbs, out>>
+  /\ UNCHANGED <<ops, async, nopush, positioned, attr, faults, hist, entry, ctr, closedGens, hubE, hubA, brokerSub, jobs, pres, status, closeReq, closing, settled, established, jl, cbs, out>>
   /\ Step("TK", "TickStart")
 
 TKCheck ==          \* closing? channel still present (by name)? then AddPresence
   /\ pc["TK"] = "tkalive"
   /\ IF closing \/ ~Has THEN Go("TK", "done") ELSE Go("TK", "tkpres")
-  /\ UNCHANGED <<ops, async, nopush, attr, faults, hist, loc, entry, ctr, closedGens, hubE, hubA, brokerSub, jobs, pres, status, closeReq, closing, settled, established, jl, cbs, out>>
+  /\ UNCHANGED <<ops, async, nopush, positioned, attr, faults, hist, loc, entry, ctr, closedGens, hubE, hubA, brokerSub, jobs, pres, status, closeReq, closing, settled, established, jl, cbs, out>>
   /\ Step("TK", "TickCheck")
 
 TKAdd ==            \* AddPresence lands; compensateRacedPresence removes it again if the channel is gone (by name)
@@ -411,7 +432,7 @@ TKAdd ==            \* AddPresence lands; compensateRacedPresence removes it aga
        \* a failing add lands nothing and is logged; the compensation runs all the same (presenceAdded = attempted)
        /\ pres' = IF f THEN (IF Has THEN pres ELSE FALSE) ELSE Has
   /\ Go("TK", "done")
-  /\ UNCHANGED <<ops, async, nopush, attr, loc, entry, ctr, closedGens, hubE, hubA, brokerSub, jobs, status, closeReq, closing, settled, established, jl, cbs, out>>
+  /\ UNCHANGED <<ops, async, nopush, positioned, attr, loc, entry, ctr, closedGens, hubE, hubA, brokerSub, jobs, status, closeReq, closing, settled, established, jl, cbs, out>>
 
 ---------------------------------------------------------------------------
 AllDone == /\ \A t \in Threads : pc[t] \in {"idle", "done"}
@@ -426,19 +447,19 @@ JobRun ==
        \* a failing Broker.Unsubscribe: the job cools down, returns the error and is put back into the queue
        /\ jobs' = IF f THEN jobs ELSE jobs - 1
        /\ brokerSub' = IF hubE = 0 /\ ~f THEN FALSE ELSE brokerSub
-  /\ UNCHANGED <<ops, async, nopush, attr, pc, loc, entry, ctr, closedGens, hubE, hubA, pres, status, closeReq, closing, settled, established, jl, cbs, out>>
+  /\ UNCHANGED <<ops, async, nopush, positioned, attr, pc, loc, entry, ctr, closedGens, hubE, hubA, pres, status, closeReq, closing, settled, established, jl, cbs, out>>
 
 \* the periodic presence tick that follows once everything is quiet ("settled" in C06)
 SettleTick ==
   /\ AllDone /\ ~settled
   /\ settled' = TRUE
   /\ pres' = IF status # "closed" /\ Has /\ entry.sub THEN TRUE ELSE pres
-  /\ UNCHANGED <<ops, async, nopush, attr, faults, hist, pc, loc, entry, ctr, closedGens, hubE, hubA, brokerSub, jobs, status, closeReq, closing, established, jl, cbs, out>>
+  /\ UNCHANGED <<ops, async, nopush, positioned, attr, faults, hist, pc, loc, entry, ctr, closedGens, hubE, hubA, brokerSub, jobs, status, closeReq, closing, established, jl, cbs, out>>
   /\ step' = [thr |-> "TK2", act |-> "SettleTick", fail |-> FALSE]
 
 Next ==
   IF UrgentClose /\ closeReq /\ pc["CL"] = "idle" THEN CLStart ELSE
-  \/ CSReserve \/ CSCallback \/ CSBrokerSubscribed \/ CSPresenceReply \/ CSCommit \/ CSJoin
+  \/ CSReserve \/ CSCallback \/ CSBrokerSubscribed \/ CSPresenceReply \/ CSHistory \/ CSCommit \/ CSJoin
   \/ SSReserve \/ SSBrokerSubscribed \/ SSPresenceCommit \/ SSPush \/ SSJoin
   \/ \E t \in {"CU", "SU"} : UStart(t)
   \/ \E t \in {"CU", "SU", "CL"} : UProceed(t) \/ URemovePresence(t) \/ ULeave(t) \/ UCallback(t)
@@ -454,7 +475,7 @@ Subscribed == Has /\ entry.sub
 Count(s, x) == Cardinality({i \in 1..Len(s) : s[i] = x})
 
 TypeOK == /\ jobs >= 0 /\ ctr <= 2 /\ faults <= MaxFaults /\ hubA \in AttrVals /\ (hubE = 0 => hubA = "none")
-          /\ \A t \in Threads : pc[t] \in {"idle", "cb", "bsub", "pres", "replied", "committed", "join", "snap", "rempres",
+          /\ \A t \in Threads : pc[t] \in {"idle", "cb", "bsub", "pres", "hist", "replied", "committed", "join", "snap", "rempres",
                                           "leave", "ucb", "tclose", "kdisc", "tkalive", "tkpres", "done"}
 
 \* C04: once settled, "reports itself subscribed" <=> exactly one routing entry, of the same generation, carrying the
@@ -500,6 +521,7 @@ W_LeaveFailsCL    == ~(Quiescent /\ <<"PublishLeave", "CL">> \in hist)
 W_RemPresFailsCU  == ~(Quiescent /\ <<"RemovePresence", "CU">> \in hist)
 W_AddPresFailsCS  == ~(Quiescent /\ <<"AddPresence", "CS">> \in hist)
 W_AddPresFailsSS  == ~(Quiescent /\ <<"AddPresence", "SS">> \in hist)
+W_HistFailsCS     == ~(Quiescent /\ <<"History", "CS">> \in hist)
 W_JobFails        == ~(Quiescent /\ jobs = 0 /\ <<"BrokerUnsubscribe", "JOB">> \in hist)
 WOpsA == {{"SS", "SU", "CS"}}
 WOpsB == {{"CS", "CU", "SS"}}
@@ -515,6 +537,7 @@ F_Leave  == {"PublishLeave"}
 F_RemP   == {"RemovePresence"}
 F_AddP   == {"AddPresence"}
 F_Unsub  == {"BrokerUnsubscribe"}
+F_Hist   == {"History"}
 
 WOps1 == {{"SS", "SU", "CS", "TK"}}
 WOps2 == {{"CS", "SU"}, {"SS", "CL"}}
@@ -524,5 +547,5 @@ WOps5 == {{"CS", "SU"}}
 WOps6 == {{"SS", "CU", "CS", "CL", "TK"}}
 WOps7 == {{"SS", "SU", "CS"}}
 
-View == <<ops, async, nopush, attr, faults, pc, loc, entry, ctr, closedGens, hubE, hubA, brokerSub, jobs, pres, status, closeReq, closing, settled, established, jl, cbs, out>>
+View == <<ops, async, nopush, positioned, attr, faults, pc, loc, entry, ctr, closedGens, hubE, hubA, brokerSub, jobs, pres, status, closeReq, closing, settled, established, jl, cbs, out>>
 =============================================================================
